@@ -614,8 +614,9 @@ void cmb_dataset_ACF(const struct cmb_dataset *dsp,
     const double var = m2 / ((double)(dsp->count - 1u));
 
     acf[0] = 1.0;
-    const double min_acf_variance = 1e-9;
-    if (var < min_acf_variance) {
+    /* Constant up to rounding noise, relative to the magnitude of the data */
+    const double min_acf_variance = 1e-20 * m1 * m1;
+    if (var <= min_acf_variance) {
         /* Would be numerically unstable to divide by that */
         cmb_logger_warning(stderr,
                 "Dataset nearly constant (variance %g), ACFs rounded to zero",
